@@ -150,6 +150,12 @@ func (g *wgen) stepExpr(j string, needs []string, matrix []string, steps map[str
 	for _, m := range matrix {
 		add("matrix." + m)
 		add("matrix['" + m + "']")
+		if m == "cfg_obj" {
+			add("matrix.cfg_obj.image")
+			add("matrix.cfg_obj['tag_x']")
+			add("matrix.cfg_obj.nosuch_prop")
+			add("matrix.cfg_obj.image")
+		}
 	}
 	add("matrix.nosuch_key")
 	for _, id := range stepIDs {
@@ -362,6 +368,18 @@ func (g *wgen) gen() {
 				d.n(f, "matrix-key:def", m)
 				d.w(f, ": [a, b]\n")
 			}
+			hasObj := r.Chance(1, 2)
+			if hasObj {
+				// a row whose values are mappings: their keys are names as well
+				d.w(f, "        cfg_obj:\n")
+				for _, v := range [][2]string{{"a", "b"}, {"c", "d"}} {
+					d.w(f, "          - ")
+					d.n(f, "matrix-objkey:def", "image")
+					d.w(f, ": "+v[0]+"\n            ")
+					d.n(f, "matrix-objkey:def", "tag_x")
+					d.w(f, ": "+v[1]+"\n")
+				}
+			}
 			if r.Chance(1, 2) {
 				extra := r.Pick(keyPool)
 				d.w(f, "        include:\n          - ")
@@ -389,6 +407,20 @@ func (g *wgen) gen() {
 					d.n(f, "matrix-key:use", "nosuch_row")
 					d.w(f, ": 1\n")
 				}
+				if hasObj {
+					d.w(f, "          - cfg_obj:\n              ")
+					d.n(f, "matrix-objkey:use", "image")
+					d.w(f, ": a\n              ")
+					d.n(f, "matrix-objkey:use", "tag_x")
+					d.w(f, ": b\n")
+				}
+			} else if hasObj && r.Chance(1, 2) {
+				d.w(f, "        exclude:\n          - cfg_obj:\n              ")
+				d.n(f, "matrix-objkey:use", "image")
+				d.w(f, ": c\n")
+			}
+			if hasObj {
+				matrix = append(matrix, "cfg_obj")
 			}
 		}
 		if r.Chance(1, 3) {
@@ -1050,6 +1082,36 @@ func main() {
 				sum.OracleFails = append(sum.OracleFails, map[string]interface{}{
 					"what": "a matrix value that is not exactly the keyword true/false/null (the keywords are case-sensitive) is not treated like an ordinary string value of the same length",
 					"key":  "keyword-lookalike:" + v, "value": v, "files": filesMap(orig), "changes": chs})
+			}
+		}
+		// the same for JSON texts handed to fromJSON: TRUE / False / NULL are not JSON, exactly like zzzz
+		jsonOf := func(v string) [nFiles][]byte {
+			t := wfOf("x")
+			t[fWorkflow] = []byte("on: push\njobs:\n  a:\n    runs-on: ubuntu-latest\n    steps:\n      - run: echo ${{ fromJSON('" + v + "') }}\n      - run: echo ${{ fromJSON('[" + v + "]')[0] }} ${{ fromJSON('{\"k\":" + v + "}').k }}\n")
+			return t
+		}
+		jcanon := func(ds []lintDiag) []string {
+			var out []string
+			for _, x := range canon(ds) {
+				if i := strings.Index(x, "fromjson()"); i >= 0 {
+					x = x[:i+len("fromjson()")] // the JSON decoder's own wording names the offending character
+				}
+				out = append(out, x)
+			}
+			return out
+		}
+		for _, v := range []string{"TRUE", "True", "FALSE", "False", "NULL", "Null", "nil", "NaN", "Infinity"} {
+			ds, err := lintFiles(root, jsonOf(v))
+			hx.Must(err)
+			ref, err := lintFiles(root, jsonOf(refOf(len(v))))
+			hx.Must(err)
+			sum.Evaluations++
+			sum.Dist["W:keyword-lookalike-json"]++
+			if got, want := jcanon(ds), jcanon(ref); !sameObs(got, want) || len(want) == 0 {
+				onlyA, onlyB := diffObs(want, got)
+				sum.OracleFails = append(sum.OracleFails, map[string]interface{}{
+					"what": "a JSON text that is not exactly true/false/null (JSON keywords are case-sensitive) is not rejected by fromJSON like any other broken JSON text",
+					"key":  "keyword-lookalike-json:" + v, "value": v, "files": filesMap(jsonOf(v)), "only_with_zz": onlyA, "only_with_value": onlyB})
 			}
 		}
 		// measured: the exact keywords DO differ from a string value
